@@ -586,4 +586,280 @@ theorem ResG.invL (hinv : InvL ext lab pos s) (hul : u < l) (hl : l < lab.length
 end
 end
 
+
+/-! ## evaluation of an edge under an assignment of the stored level numbers -/
+
+/-- `Ev sh σ x v`: the diagram below edge `x` evaluates to `v` when the variable whose nodes carry
+the stored level number `ℓ` has the value `σ ℓ` -/
+inductive Ev (sh : Nat → Option Node) (σ : Nat → Bool) : Edge → Bool → Prop
+  | term : Ev sh σ (.term b) b
+  | inner : sh i = some ⟨ℓ, t, e⟩ → Ev sh σ t vt → Ev sh σ e ve →
+      Ev sh σ (.inner i) (if σ ℓ then vt else ve)
+
+theorem Ev.functional {sh : Nat → Option Node} {σ : Nat → Bool} {x : Edge} {v w : Bool}
+    (hv : Ev sh σ x v) (hw : Ev sh σ x w) : v = w := by
+  induction hv generalizing w with
+  | term => cases hw; rfl
+  | inner hi _ _ iht ihe =>
+    cases hw with
+    | inner hi' ht' he' =>
+      rw [hi] at hi'; cases hi'
+      rw [iht ht', ihe he']
+
+/-- the value of an edge is the value of the diagram it denotes -/
+theorem ev_of_den {h : Heap} {x : Edge} {t : BDD} (hd : Denotes h.abs x t) (σ : Nat → Bool) :
+    Ev h.sh σ x (t.eval σ) := by
+  induction hd with
+  | term => exact .term
+  | inner hi _ _ iht ihe =>
+    rw [abs_get?] at hi
+    exact .inner hi iht ihe
+
+theorem den_of_ev_eval {h : Heap} {x : Edge} {t : BDD} (hd : Denotes h.abs x t) {σ : Nat → Bool}
+    {v : Bool} (hv : Ev h.sh σ x v) : v = t.eval σ :=
+  hv.functional (ev_of_den hd σ)
+
+section
+variable {ext : Nat → Nat} {lab : List Nat} {pos : Nat → Nat} {s s' : SStore} {u l a b : Nat}
+  {up lo : List Nat} {σ : Nat → Bool}
+
+/-- the cofactors of an edge evaluate to the two branches on the lower label -/
+theorem ev_cof {sh : Nat → Option Node} {c : Edge} {vc : Bool} (hv : Ev sh σ c vc) (b : Nat) :
+    ∃ v1 v2, Ev sh σ (cof0 b sh c).1 v1 ∧ Ev sh σ (cof0 b sh c).2 v2 ∧
+      vc = if σ b then v1 else v2 := by
+  cases hv with
+  | term => exact ⟨_, _, .term, .term, by simp⟩
+  | @inner i ℓ t e vt ve hi ht he =>
+    simp only [cof0, hi]
+    by_cases hl : ℓ = b
+    · subst hl; simp only [if_true]; exact ⟨vt, ve, ht, he, rfl⟩
+    · simp only [hl, if_false]
+      exact ⟨_, _, .inner hi ht he, .inner hi ht he, by simp⟩
+
+/-- a diagram that lies entirely below the two level views is untouched -/
+theorem ResG.ev_below (hinv : InvL ext lab pos s) (hul : u < l) (hl : l < lab.length)
+    (ha : lab.getD u 0 = a) (hb : lab.getD l 0 = b)
+    (hp : Pre a b (BelowL pos l) s.h.sh (s.table u))
+    (hres : ResG ext pos s u l a b s' up lo) {x : Edge} {v : Bool}
+    (hv : Ev s.h.sh σ x v) (hbel : Bel a b (BelowL pos l) s.h.sh x) : Ev s'.h.sh σ x v := by
+  have hu : u < lab.length := by omega
+  have hpa : pos a = u := ha ▸ hinv.pos_lab u hu
+  have hpb : pos b = l := hb ▸ hinv.pos_lab l hl
+  induction hv with
+  | term => exact .term
+  | @inner i ℓ t e vt ve hi _ _ iht ihe =>
+    obtain ⟨n, hn, hn', hlt, _, _⟩ := hres.bel_sh hp hbel
+    rw [hi] at hn; cases hn
+    have hchild : ∀ c, (c = t ∨ c = e) → Bel a b (BelowL pos l) s.h.sh c := by
+      intro c hc
+      cases c with
+      | term w => trivial
+      | inner k =>
+        obtain ⟨m, hm, hlt'⟩ := hinv.ordered i _ hi k
+          (by rcases hc with h | h; exact Or.inl h.symm; exact Or.inr h.symm)
+        have h3 : l < pos m.level := by simp only at hlt hlt'; omega
+        refine ⟨m, hm, ?_, ?_, h3⟩
+        · intro h; rw [h, hpa] at h3; omega
+        · intro h; rw [h, hpb] at h3; omega
+    exact .inner hn' (iht (hchild t (Or.inl rfl))) (ihe (hchild e (Or.inr rfl)))
+
+theorem ResG.mkR_ev (hres : ResG ext pos s u l a b s' up lo) {x y c : Edge} {vx vy : Bool}
+    (hm : MkR a s'.h.sh lo [] x y c) (hx : Ev s'.h.sh σ x vx) (hy : Ev s'.h.sh σ y vy) :
+    Ev s'.h.sh σ c (if σ a then vx else vy) := by
+  rcases hm with ⟨h1, h2⟩ | ⟨_, j, _, h2, h3⟩
+  · subst h1 h2
+    have := hx.functional hy
+    subst this
+    simp only [ite_self]; exact hx
+  · subst h2
+    exact .inner h3 hx hy
+
+/-- **every surviving edge keeps its value** under every assignment of the labels -/
+theorem ResG.eval (hinv : InvL ext lab pos s) (hul : u < l) (hl : l < lab.length)
+    (hgap : ∀ p, u < p → p < l → s.table p = [])
+    (ha : lab.getD u 0 = a) (hb : lab.getD l 0 = b)
+    (hres : ResG ext pos s u l a b s' up lo) {x : Edge} {v : Bool}
+    (hv : Ev s.h.sh σ x v)
+    (halive : ∀ k m, x = .inner k → s.h.sh k = some m → m.level = b → k ∈ up) :
+    Ev s'.h.sh σ x v := by
+  have hp : Pre a b (BelowL pos l) s.h.sh (s.table u) := ha ▸ hb ▸ hinv.pre hul hl hgap
+  have hJ := hres.j
+  have hbelow : ∀ {x v}, Ev s.h.sh σ x v → Bel a b (BelowL pos l) s.h.sh x → Ev s'.h.sh σ x v :=
+    fun h1 h2 => hres.ev_below hinv hul hl ha hb hp h1 h2
+  induction hv with
+  | term => exact .term
+  | @inner i ℓ t e vt ve hi ht he iht ihe =>
+    by_cases h1 : ℓ = a
+    · subst h1
+      have hio : i ∈ s.table u := (hp.old_iff i).mpr ⟨_, hi, rfl⟩
+      have hk0 := hp.upKids i _ hi rfl
+      rcases hJ.oldC i hio with h | h | h
+      · simp at h
+      · -- moved
+        obtain ⟨x', y', g1, hx, hy, _, g5, _⟩ := hJ.loC i h
+        have := g5 hio
+        rw [hi, g1] at this; cases this
+        exact .inner g1 (hbelow ht hx) (hbelow he hy)
+      · -- rewritten
+        rcases hJ.upC i h with ⟨n0, g1, g2, _⟩ | ⟨_, _, n0, c1, c2, g3, g4, g5, g6, g7⟩
+        · rw [hi] at g1; cases g1; exact absurd g2 hp.ab
+        · rw [hi] at g3; cases g3
+          obtain ⟨t1, t2, ht1, ht2, et⟩ := ev_cof ht b
+          obtain ⟨e1, e2, he1, he2, ee⟩ := ev_cof he b
+          have bt := bel_cof0 hp hk0.1
+          have be := bel_cof0 hp hk0.2
+          have r1 := hres.mkR_ev g6 (hbelow ht1 bt.1) (hbelow he1 be.1)
+          have r2 := hres.mkR_ev g7 (hbelow ht2 bt.2) (hbelow he2 be.2)
+          have := Ev.inner g5 r1 r2
+          have heq : (if σ b then (if σ ℓ then t1 else e1) else (if σ ℓ then t2 else e2)) =
+              (if σ ℓ then vt else ve) := by
+            subst et ee
+            cases σ b <;> cases σ ℓ <;> simp
+          rw [heq] at this; exact this
+    · by_cases h2 : ℓ = b
+      · subst h2
+        have hiu := halive i _ rfl hi rfl
+        rcases hJ.upC i hiu with ⟨n0, g1, _, g3⟩ | ⟨g1, _⟩
+        · rw [hi] at g1; cases g1
+          have hk := hp.lowKids i _ hi rfl
+          exact .inner g3 (hbelow ht hk.1) (hbelow he hk.2)
+        · obtain ⟨n0, g2, g3⟩ := (hp.old_iff i).mp g1
+          rw [hi] at g2; cases g2; exact absurd g3 (Ne.symm hp.ab)
+      · have hs' := (hres.frame_sh hp hi h1 h2).2.2
+        have hal : ∀ c, (c = t ∨ c = e) → ∀ k m, c = .inner k → s.h.sh k = some m → m.level = b →
+            k ∈ up := by
+          intro c hc k m hck hm hmb
+          apply Classical.byContradiction
+          intro hku
+          have := (hJ.dead k m hm hmb hku).2 i _ hi (Or.inl ⟨h1, h2⟩)
+          rcases hc with hc | hc
+          · exact this.1 (hc ▸ hck)
+          · exact this.2 (hc ▸ hck)
+        exact .inner hs' (iht (hal t (Or.inl rfl))) (ihe (hal e (Or.inr rfl)))
+end
+
+
+/-! ## one call of the `swap` closure of `set_var_order` -/
+
+/-- the state of the manager during `set_var_order`: the lazy invariant, the level views that were
+empty at the start are still empty, and the level→variable map follows `to_pre` -/
+structure RInv (ext : Nat → Nat) (fromNe l2v0 : List Nat) (pos : Nat → Nat) (r : RState) : Prop where
+  inv : InvL ext r.toPre pos r.s
+  empty : ∀ p, p ∉ fromNe → r.s.table p = []
+  l2v_len : r.l2v.length = r.toPre.length
+  l2v_eq : ∀ p, p < r.toPre.length → r.l2v.getD p 0 = l2v0.getD (r.toPre.getD p 0) 0
+
+theorem getD_self_eq {lab : List Nat} {p : Nat} (hp : p < lab.length) : lab.getD p p = lab.getD p 0 := by
+  simp [List.getD_eq_getElem?_getD, List.getElem?_eq_getElem hp]
+
+theorem levelSwapG_toPre (al : Heap → Nat) (ord : List Nat → List Nat) (r : RState) {u l : Nat}
+    (hu : u < r.toPre.length) (hl : l < r.toPre.length) :
+    (levelSwapG al ord r u l).toPre = swapLab r.toPre u l := by
+  simp only [levelSwapG, swapLab, getD_self_eq hu, getD_self_eq hl]
+
+theorem levelSwapG_l2v (al : Heap → Nat) (ord : List Nat → List Nat) (r : RState) (u l : Nat) :
+    (levelSwapG al ord r u l).l2v = swapLab r.l2v u l := rfl
+
+section
+variable {ext : Nat → Nat} {fromNe l2v0 : List Nat} {pos : Nat → Nat} {r : RState} {u l : Nat}
+  {al : Heap → Nat} {ord : List Nat → List Nat}
+
+/-- **one `level_swap` of `set_var_order`**: the invariant of the reordering is preserved and
+every edge that is still there — in particular every external handle — keeps its value under
+every assignment of the labels -/
+theorem levelSwapG_spec (hal : AllocOK al) (hord : OrderOK ord) (hr : RInv ext fromNe l2v0 pos r)
+    (hul : u < l) (hl : l < r.toPre.length) (hu' : u ∈ fromNe) (hl' : l ∈ fromNe)
+    (hgap : ∀ p, u < p → p < l → p ∉ fromNe) :
+    ∃ pos', RInv ext fromNe l2v0 pos' (levelSwapG al ord r u l) ∧
+      ∀ σ x v, Ev r.s.h.sh σ x v →
+        (∀ k m, x = .inner k → r.s.h.sh k = some m → m.level = r.toPre.getD l 0 → 0 < ext k) →
+        Ev (levelSwapG al ord r u l).s.h.sh σ x v := by
+  have hu : u < r.toPre.length := by omega
+  have hgap' : ∀ p, u < p → p < l → r.s.table p = [] := fun p h1 h2 => hr.empty p (hgap p h1 h2)
+  obtain ⟨up, lo, hres⟩ := levelSwapG_res hal hord hr.inv hul hl hgap' r.l2v
+  have hres' := hres.toResG
+  have hinv' := hres'.invL hr.inv hul hl hgap' rfl rfl
+  refine ⟨swapPos pos (r.toPre.getD u 0) (r.toPre.getD l 0) u l, ⟨?_, ?_, ?_, ?_⟩, ?_⟩
+  · show InvL ext (levelSwapG al ord r u l).toPre _ (levelSwapG al ord ⟨r.s, r.toPre, r.l2v⟩ u l).s
+    rw [levelSwapG_toPre al ord r hu hl]; exact hinv'
+  · intro p hp
+    show (levelSwapG al ord ⟨r.s, r.toPre, r.l2v⟩ u l).s.table p = []
+    rw [hres'.tables]
+    have h1 : p ≠ l := fun h => hp (h ▸ hl')
+    have h2 : p ≠ u := fun h => hp (h ▸ hu')
+    simp only [h1, h2, if_false]
+    exact hr.empty p hp
+  · rw [levelSwapG_l2v, levelSwapG_toPre al ord r hu hl, swapLab_length, swapLab_length]
+    exact hr.l2v_len
+  · intro p hp
+    rw [levelSwapG_toPre al ord r hu hl] at hp ⊢
+    rw [swapLab_length] at hp
+    rw [levelSwapG_l2v, swapLab_getD (hr.l2v_len ▸ hu) (hr.l2v_len ▸ hl), swapLab_getD hu hl]
+    by_cases h1 : p = l
+    · simp only [h1, if_true]; exact hr.l2v_eq u hu
+    · by_cases h2 : p = u
+      · simp only [h1, h2, if_false, if_true]
+        have : ¬ (u = l) := by omega
+        simp only [this, if_false]; exact hr.l2v_eq l hl
+      · simp only [h1, h2, if_false]; exact hr.l2v_eq p hp
+  · intro σ x v hv hal'
+    refine hres'.eval hr.inv hul hl hgap' rfl rfl hv (fun k m hk hm hlv => ?_)
+    apply Classical.byContradiction
+    intro hku
+    have h0 := (hres'.j.dead k m hm hlv hku).1
+    have := hal' k m hk hm hlv
+    omega
+
+/-! ## the first step of `set_var_order`: a sequence of swaps of neighbouring non-empty levels -/
+
+theorem sorted_consecutive {L : List Nat} (hs : L.Pairwise (· < ·)) {i : Nat} (hi : i + 1 < L.length) :
+    L.getD i 0 < L.getD (i + 1) 0 ∧ L.getD i 0 ∈ L ∧ L.getD (i + 1) 0 ∈ L ∧
+    ∀ p, L.getD i 0 < p → p < L.getD (i + 1) 0 → p ∉ L := by
+  have hi0 : i < L.length := by omega
+  have e0 : L.getD i 0 = L[i] := by simp [List.getD_eq_getElem?_getD, List.getElem?_eq_getElem hi0]
+  have e1 : L.getD (i + 1) 0 = L[i + 1] := by
+    simp [List.getD_eq_getElem?_getD, List.getElem?_eq_getElem hi]
+  rw [e0, e1]
+  have hpw := List.pairwise_iff_getElem.mp hs
+  refine ⟨hpw i (i + 1) hi0 hi (by omega), List.getElem_mem _, List.getElem_mem _, ?_⟩
+  intro p h1 h2 hp
+  obtain ⟨j, hj, rfl⟩ := List.mem_iff_getElem.mp hp
+  by_cases c1 : j < i
+  · have := hpw j i hj hi0 c1; omega
+  · by_cases c2 : j = i
+    · subst c2; omega
+    · by_cases c3 : j = i + 1
+      · subst c3; omega
+      · have := hpw (i + 1) j hi hj (by omega); omega
+
+/-- the `swap` closure applied to a list of indices into `from_ne` -/
+def swapsG (al : Heap → Nat) (ord : List Nat → List Nat) (fromNe : List Nat) (r : RState)
+    (sw : List Nat) : RState :=
+  sw.foldl (fun r i => levelSwapG al ord r (fromNe.getD i 0) (fromNe.getD (i + 1) 0)) r
+
+theorem levelSwapG_toPre_length (al : Heap → Nat) (ord : List Nat → List Nat) (r : RState) (u l : Nat) :
+    (levelSwapG al ord r u l).toPre.length = r.toPre.length := by
+  simp [levelSwapG]
+
+theorem swapsG_spec (hal : AllocOK al) (hord : OrderOK ord) (hs : fromNe.Pairwise (· < ·))
+    (sw : List Nat) (hsw : ∀ i ∈ sw, i + 1 < fromNe.length)
+    (hr : RInv ext fromNe l2v0 pos r) (hlt : ∀ p ∈ fromNe, p < r.toPre.length) :
+    ∃ pos', RInv ext fromNe l2v0 pos' (swapsG al ord fromNe r sw) ∧
+      (swapsG al ord fromNe r sw).toPre.length = r.toPre.length ∧
+      ∀ σ k v, 0 < ext k → Ev r.s.h.sh σ (.inner k) v →
+        Ev (swapsG al ord fromNe r sw).s.h.sh σ (.inner k) v := by
+  unfold swapsG
+  induction sw generalizing r pos with
+  | nil => exact ⟨pos, hr, rfl, fun _ _ _ _ h => h⟩
+  | cons i rest ih =>
+    simp only [List.foldl_cons]
+    obtain ⟨h1, h2, h3, h4⟩ := sorted_consecutive hs (hsw i (by simp))
+    obtain ⟨pos1, hr1, hev1⟩ := levelSwapG_spec hal hord hr h1 (hlt _ h3) h2 h3 h4
+    have hlen := levelSwapG_toPre_length al ord r (fromNe.getD i 0) (fromNe.getD (i + 1) 0)
+    obtain ⟨pos2, hr2, hlen2, hev2⟩ := ih (fun j hj => hsw j (by simp [hj])) hr1
+      (fun p hp => by rw [hlen]; exact hlt p hp)
+    refine ⟨pos2, hr2, hlen2.trans hlen, fun σ k v hk hv => hev2 σ k v hk ?_⟩
+    exact hev1 σ _ v hv (fun k' m hk' _ _ => by injection hk' with hk'; subst hk'; exact hk)
+end
+
 end OxiddModel.Reorder.SwapStore
